@@ -1064,6 +1064,8 @@ RAW_CLASS = {k: 'contained' for k in RAW_FRAMES}
 for _k in ('acknum', 'strpayload', 'intevent', 'nullevent', 'ackunknownns',
            'evunknownns'):
     RAW_CLASS[_k] = 'ignored'
+# "31" reads as an ACK for id 1 without any payload
+RAW_CLASS['acknum'] = 'ackbare'
 
 
 # the same for a server that uses the msgpack serializer
